@@ -31,9 +31,23 @@ type HandleCase struct {
 	Yield   int      `json:"yield"` // readers call Gosched every Yield reads (0 = never)
 }
 
+// Version 3 of every secret is the empty byte string (the service accepts and serves it like any
+// other value); it is the only version of a name without self-describing bytes, so an empty read
+// of a handle stands for version 3 of that handle's name.
 func c12Value(name string, ver uint32) []byte {
+	if ver == 3 {
+		return []byte{}
+	}
 	pad := strings.Repeat(string(rune('a'+ver%26)), int(ver%7)*13)
 	return []byte(fmt.Sprintf("%s#%d#%s", name, ver, pad))
+}
+
+// parseFor decodes what the handle of name returned.
+func parseFor(name string, b []byte) (string, uint32, bool) {
+	if len(b) == 0 {
+		return name, 3, true
+	}
+	return parseC12(b)
 }
 
 func parseC12(b []byte) (name string, ver uint32, ok bool) {
@@ -56,8 +70,13 @@ type namedHandle struct {
 	h    setec.Secret
 }
 
+// a handle call that never returns (a lock that was never released) cannot be waited for: see h.StuckWatch
+var c12stuck = h.NewStuckWatch("C12", "handles", "never-waits-for-the-service", "a handle call", 45*time.Second)
+var c12slot atomic.Int64
+
 func runC12(t *testing.T, c HandleCase) (*h.Violation, h.Info) {
 	var info h.Info
+	c12stuck.Begin(c)
 	svc := fake.NewSvc()
 	all := []string{"d1", "d2", "u1", "u2", "u3", "c1", "c2"}
 	cur := map[string]uint32{}
@@ -67,11 +86,12 @@ func runC12(t *testing.T, c HandleCase) (*h.Violation, h.Info) {
 	}
 	clock := fake.NewClock(clockStart)
 	tick := newChanTicker()
+	// the start-up cache supplies two undeclared secrets nobody holds a handle for yet (stale from the start)
+	cache := fake.NewCache(model.EncodeCache(model.CacheDoc{
+		"c1": {Version: 1, Value: c12Value("c1", 1), LastAccess: 0}, "c2": {Version: 1, Value: c12Value("c2", 1), LastAccess: clockStart - 1000},
+	}))
 	st, err := setec.NewStore(context.Background(), setec.StoreConfig{
-		// the start-up cache supplies two undeclared secrets nobody holds a handle for yet (stale from the start)
-		Client: svc, Secrets: []string{"d1", "d2"}, AllowLookup: true, Cache: fake.NewCache(model.EncodeCache(model.CacheDoc{
-			"c1": {Version: 1, Value: c12Value("c1", 1), LastAccess: 0}, "c2": {Version: 1, Value: c12Value("c2", 1), LastAccess: clockStart - 1000},
-		})),
+		Client: svc, Secrets: []string{"d1", "d2"}, AllowLookup: true, Cache: cache,
 		PollTicker: tick, ExpiryAge: 10 * time.Second, TimeNow: clock.Now, Logf: nolog,
 	})
 	if err != nil {
@@ -101,7 +121,7 @@ func runC12(t *testing.T, c HandleCase) (*h.Violation, h.Info) {
 	ackOf := func(n string) *atomic.Int32 { v, _ := acked.Load(n); return v.(*atomic.Int32) }
 	// firstInstall records what a freshly obtained handle serves (by reading it once)
 	firstInstall := func(name string, hd setec.Secret) bool {
-		_, ver, ok := parseC12(hd.Get())
+		_, ver, ok := parseFor(name, hd.Get())
 		if !ok {
 			return false
 		}
@@ -127,12 +147,15 @@ func runC12(t *testing.T, c HandleCase) (*h.Violation, h.Info) {
 		for _, nh := range hs {
 			min := int(ackOf(nh.name).Load())
 			inst := installing.Load() > 0
+			slot := int(c12slot.Add(1))
+			c12stuck.Enter(slot)
 			b := nh.h.Get()
+			c12stuck.Leave(slot)
 			reads.Add(1)
 			if inst && installing.Load() > 0 {
 				overlapped.Add(1)
 			}
-			name, ver, ok := parseC12(b)
+			name, ver, ok := parseFor(nh.name, b)
 			if !ok {
 				fail("complete-really-served-value", "handle of %q returned %q, which is not a complete value the service ever served", nh.name, b)
 				return
@@ -330,7 +353,13 @@ func runC12(t *testing.T, c HandleCase) (*h.Violation, h.Info) {
 			info.Class("expiry-sweep")
 		case "close":
 			if !closed {
+				if ev.Back {
+					// the cache device goes away just before shutdown: the final flush fails
+					cache.SetFailing(true)
+					info.Class("closed-with-a-failing-cache")
+				}
 				st.Close()
+				cache.SetFailing(false)
 				closed = true
 				info.Class("closed-while-reading")
 			}
@@ -412,7 +441,7 @@ func runC12(t *testing.T, c HandleCase) (*h.Violation, h.Info) {
 					fail("harness", "lookup %q: %v", names[i], r.err)
 					break
 				}
-				if n, _, ok := parseC12(r.hd.Get()); !ok || n != names[i] {
+				if n, _, ok := parseFor(names[i], r.hd.Get()); !ok || n != names[i] {
 					fail("never-another-secrets-value", "two overlapping lookups of %q and %q: the handle returned for %q yields %q", names[0], names[1], names[i], r.hd.Get())
 					break
 				}
@@ -565,7 +594,13 @@ func runC12(t *testing.T, c HandleCase) (*h.Violation, h.Info) {
 	// let readers run a little after the last event, then stop
 	time.Sleep(100 * time.Microsecond)
 	close(stop)
-	wg.Wait()
+	readersDone := make(chan struct{})
+	go func() { wg.Wait(); close(readersDone) }()
+	select {
+	case <-readersDone:
+	case <-time.After(20 * time.Second):
+		return h.V("never-waits-for-the-service", "20 s after the last event a reader is still inside a handle call (closed=%v): a handle call never returned", closed), info
+	}
 	if b := bad.Load(); b != nil {
 		return b.(*h.Violation), info
 	}
@@ -578,7 +613,7 @@ func runC12(t *testing.T, c HandleCase) (*h.Violation, h.Info) {
 		if v := h.Safely(func() *h.Violation { b = nh.h.Get(); return nil }); v != nil {
 			return h.V("never-panics", "a handle of %q that had been idle since it was obtained panicked when finally called (closed=%v): %s", nh.name, closed, v.Detail), info
 		}
-		if n, ver, ok := parseC12(b); !ok || n != nh.name || !svc.EverActive(n, ver, b) {
+		if n, ver, ok := parseFor(nh.name, b); !ok || n != nh.name || !svc.EverActive(n, ver, b) {
 			return h.V("complete-really-served-value", "idle handle of %q yields %q", nh.name, b), info
 		}
 	}
@@ -592,7 +627,7 @@ func runC12(t *testing.T, c HandleCase) (*h.Violation, h.Info) {
 		imu.RUnlock()
 		want := seq[ackOf(nh.name).Load()]
 		okTail := false
-		_, ver, ok := parseC12(b)
+		_, ver, ok := parseFor(nh.name, b)
 		for j := int(ackOf(nh.name).Load()); j < len(seq); j++ {
 			if seq[j] == ver {
 				okTail = true
